@@ -143,4 +143,11 @@ var propSpecs = []PropSpec{
 		NotDecided:  "value-level restrictions (integer range, float syntax accepted by strconv); the position of the syntax diagnostic (C07)",
 		Assumptions: commonAssumptions,
 	},
+	{
+		ID:          "C07",
+		Rules:       []string{"C07.CONV", "C07.ACCUM", "C07.QUOTE", "C07.FIELDS", "C07.ARGS", "C07.TOKEN", "C07.ERRTOK", "C07.LEXPOS", "C07.ORIGIN", "C17.COL"},
+		Explanation: "Exactness of positions is decided as symbolic position arithmetic: integer values are normalised to linear forms over their sources (fields, parameters, loop-carried variables). (CONV) the placeholder-to-file mapping is base + value - 1 for line and column; (ACCUM) in the scan over the placeholders of a scalar the column handed to the parser is base + offset + bytes cut, the offset advances around the loop by exactly the bytes sliced off the remaining text, the scan starts at offset 0, `${{` is recorded three columns before the expression, and text/position/quoting of one scalar travel together; (QUOTE) every column base derived from a scalar's position is Pos.Col plus one exactly when the scalar is quoted, decided once outside loops (expression scan, bare `if:` conditions, glob errors on a per-error copy); (FIELDS) every integer stored into a line/column/offset field is computed from sources of the same class; (ARGS) arguments named like line/column are passed for parameters of the same class at every call; (TOKEN) each node is positioned at its own token or its leftmost operand; (ERRTOK) no parser error is recorded after the look-ahead was advanced without a new look-ahead test, and nothing is consumed through the parser between the end of the expression and the left-over error; (LEXPOS) the start of a token is moved past every skipped white space and tokens carry the recorded start; (ORIGIN) no position object has a constant or missing component and none is nil at a diagnostic; (COL, shared with C17) glob error columns come from the scanner.",
+		NotDecided:  "YAML scalars with escapes, multi-line or non-ASCII text (bytes vs columns); positions computed by go-yaml; the 1 <= line <= #lines bound",
+		Assumptions: commonAssumptions,
+	},
 }
